@@ -447,12 +447,17 @@ func (s *sharedEntryAttributes) shouldDelete() bool {
 	// but a real delete should only be added if there is at least one shouldDelete() == true
 	shouldDelete := false
 
+	// a child that has to stay keeps this entry alive, whatever the entry's own leaf variants say
+	// (a presence container one intent gives up while values below it remain)
+	childHasToStay := false
+
 	// iterate through the active childs
 	for _, c := range s.filterActiveChoiceCaseChilds() {
 		// check if the child can be deleted
 		canDelete = c.canDelete()
 		// if it can explicitly not be deleted, then the result is clear, we should not delete
 		if !canDelete {
+			childHasToStay = true
 			break
 		}
 		// if it can be deleted we need to check if there is a contibuting entry that
@@ -470,7 +475,7 @@ func (s *sharedEntryAttributes) shouldDelete() bool {
 	//     shouldDelete() [only if an entry is explicitly to be deleted, issue a delete]
 	//   and
 	//     s.leafVariants.canDelete()
-	result := leafVariantshouldDelete || (canDelete && shouldDelete && s.leafVariants.canDelete())
+	result := (leafVariantshouldDelete && !childHasToStay) || (canDelete && shouldDelete && s.leafVariants.canDelete())
 
 	s.cacheShouldDelete = &result
 	return result
